@@ -3,6 +3,7 @@ package rules
 import (
 	"go/ast"
 	"go/token"
+	"go/types"
 	"strings"
 
 	"engcheck/core"
@@ -485,6 +486,18 @@ func connReadEffects(c *core.Ctx, R string) {
 				for _, a := range fieldStores(u, "Conn.reader", func(e ast.Expr) bool { return fieldOf(info, e) == "Conn.messageReader" }) {
 					if g.Dominates(a.Loc, r.Loc) {
 						pub = true
+					}
+				}
+				// … or both slots are given the same local, which holds the fresh reader
+				for _, a := range fieldAssigns(u, "Conn.reader") {
+					for _, b := range fieldAssigns(u, "Conn.messageReader") {
+						if a.Rhs != nil && b.Rhs != nil && g.Dominates(a.Loc, r.Loc) && g.Dominates(b.Loc, r.Loc) {
+							if o := core.ObjOf(info, a.Rhs); o != nil && o == core.ObjOf(info, b.Rhs) {
+								if _, isV := o.(*types.Var); isV && !o.(*types.Var).IsField() {
+									pub = true
+								}
+							}
+						}
 					}
 				}
 				c.Check(R, wtNextReader+"/reader-handed-out-exactly-for-data-frames", r.Stmt.Pos(), ok && pub, keyf("not on a non-data or error edge: %v; c.reader = c.messageReader first: %v", ok, pub))
